@@ -83,5 +83,52 @@ func init() {
 			}
 		}
 		fmt.Fprintf(&e.b, "Definition worker_run_resets_scope : bool := %v.\n", resets)
+
+		// Is reply.Scope filled on every path of (*worker).Run that answers for a
+		// task, including the early return taken when the worker already holds the
+		// task as done (or running)?  I.e.: the `defer func() { ... reply.Scope.Reset(
+		// &task.Scope) }()` is a statement of the function body that comes BEFORE
+		// the `switch task.state`.
+		deferIdx, switchIdx := -1, -1
+		for i, st := range fd.Body.List {
+			switch st := st.(type) {
+			case *ast.DeferStmt:
+				fl, ok := st.Call.Fun.(*ast.FuncLit)
+				if !ok {
+					continue
+				}
+				found := false
+				ast.Inspect(fl.Body, func(n ast.Node) bool {
+					call, ok := n.(*ast.CallExpr)
+					if !ok {
+						return true
+					}
+					sel, ok := call.Fun.(*ast.SelectorExpr)
+					if !ok || sel.Sel.Name != "Reset" {
+						return true
+					}
+					inner, ok := sel.X.(*ast.SelectorExpr)
+					if !ok || inner.Sel.Name != "Scope" {
+						return true
+					}
+					if id, ok := inner.X.(*ast.Ident); ok && id.Name == "reply" {
+						found = true
+					}
+					return true
+				})
+				if found && deferIdx < 0 {
+					deferIdx = i
+				}
+			case *ast.SwitchStmt:
+				if sel, ok := st.Tag.(*ast.SelectorExpr); ok && sel.Sel.Name == "state" && switchIdx < 0 {
+					switchIdx = i
+				}
+			}
+		}
+		if switchIdx < 0 {
+			e.fail("exec.(*worker).Run: switch on task.state not found")
+		}
+		fmt.Fprintf(&e.b, "Definition worker_run_reply_filled_on_every_path : bool := %v.\n",
+			deferIdx >= 0 && switchIdx >= 0 && deferIdx < switchIdx)
 	}})
 }
